@@ -899,6 +899,9 @@ fn split_text(s: &str) -> Vec<String> {
     let mut is_leading_whitespace = true;
     let mut is_backslash_prev = false;
 
+    // A quotation mark behind a backslash does not close a string literal.
+    let mut is_escape_prev = false;
+
     let mut iter = s.chars().peekable();
     while let Some(c) = iter.next() {
 
@@ -939,7 +942,7 @@ fn split_text(s: &str) -> Vec<String> {
             x = String::from("");
             x.push(c);
             is_string = true;
-        } else if c == '"' && is_string {
+        } else if c == '"' && is_string && !is_escape_prev {
             x.push(c);
             ret.push(x);
             x = String::from("");
@@ -957,6 +960,7 @@ fn split_text(s: &str) -> Vec<String> {
         }
 
         is_backquote_prev = c == '`';
+        is_escape_prev = is_string && c == '\\' && !is_escape_prev;
     }
     ret.push(x);
     ret
